@@ -88,6 +88,10 @@ case("bic-historic-countries", "C04", BIC, "        return countries.get(alpha_2
 case("bic-not-country-benign", "C04,C05", BIC, "        if self.country is None:", "        if not self.country:", S)
 case("nfkc-normalise", "C10", C, "        return super().__new__(cls, clean(value))", '        return super().__new__(cls, clean(unicodedata.normalize("NFKC", value)))', V, "R10-norm",
      more=[{"file": C, "old": "import copy\n", "new": "import copy\nimport unicodedata\n"}])
+case("sk-branch-range-short", "C06,C17", "schwifty/iban_registry/overwrite.json", '  "SK": {\n    "positions": {\n      "branch_code": [\n        4,', '  "SK": {\n    "positions": {\n      "branch_code": [\n        5,', V)
+case("bank-guard-wrong-bound", "C08", B, "        if len(components[Component.BANK_CODE]) > bank_code_length:", "        if len(components[Component.BANK_CODE]) > bank_code_length + branch_code_length:", V, "R08-guards")
+case("v2-suffix-2", "C18", R, 'if entry.stem.endswith("v2"):', 'if entry.stem.endswith("2"):', V, "R18-get")
+case("allow-invalid-is-false", "C05", I, "        if not allow_invalid:", "        if allow_invalid is False:", V, "funnel")
 # ---- C10 / C11 -----------------------------------------------------------------------------------------------
 case("clean-ascii-ws", "C10,C01,C04", C, '_clean_regex = re.compile(r"\\s+")', '_clean_regex = re.compile(r"[ \\t\\n]+")', V, "whitespace")
 case("clean-re-ascii", "C10,C01,C04", C, '_clean_regex = re.compile(r"\\s+")', '_clean_regex = re.compile(r"\\s+", re.ASCII)', V, "whitespace")
